@@ -278,6 +278,26 @@ func c08Judge(seed *c08Seed, doc []byte) (sig string, reached bool, accepted boo
 		}
 		return false
 	}})
+	// the second-stage entry point is public too: called directly on decoded proofs with the challenge they
+	// carry (nothing was "set expected" before). Only "returns" is demanded.
+	calls = append(calls, call{"Proof.VerifyWithChallenge-directly", func() bool {
+		for i, p := range fresh() {
+			if i >= n || p == nil {
+				continue
+			}
+			switch p := p.(type) {
+			case *ProofD:
+				if p != nil && p.C != nil {
+					p.VerifyWithChallenge(keysFor(n)[i], p.C)
+				}
+			case *ProofU:
+				if p != nil && p.C != nil {
+					p.VerifyWithChallenge(keysFor(n)[i], p.C)
+				}
+			}
+		}
+		return false
+	}})
 	if n >= 1 {
 		calls = append(calls, call{"ProofList.Verify-one-key-fewer", func() bool {
 			return fresh().Verify(keysFor(n-1), seed.ctx, seed.nonce, seed.issig, nil)
